@@ -52,17 +52,17 @@ Print Assumptions C17_growth_exhausts_orbit.
 Theorem C17_check_exact_sound :
   forall (g : rb_gens) (start : list Z) (row : list Z),
     check_growth_exact g start row = true ->
-    row = map (fun i => Z.of_nat (length (Graph.layer zstate zstate_eq_dec (rb_funs g) [start] i)))
+    row = map (fun i => Z.of_nat (length (Graph.layer zstate zstate_eq_dec (rb_funs_spec g) [start] i)))
               (seq 0 (length row)) /\
-    Graph.layer zstate zstate_eq_dec (rb_funs g) [start] (length row) = [] /\
-    (forall i, i < length row -> Graph.layer zstate zstate_eq_dec (rb_funs g) [start] i <> []).
+    Graph.layer zstate zstate_eq_dec (rb_funs_spec g) [start] (length row) = [] /\
+    (forall i, i < length row -> Graph.layer zstate zstate_eq_dec (rb_funs_spec g) [start] i <> []).
 Proof. exact check_growth_exact_sound. Qed.
 Print Assumptions C17_check_exact_sound.
 
 Theorem C17_check_prefix_sound :
   forall (g : rb_gens) (start : list Z) (row : list Z),
     check_growth_prefix g start row = true ->
-    row = map (fun i => Z.of_nat (length (Graph.layer zstate zstate_eq_dec (rb_funs g) [start] i)))
+    row = map (fun i => Z.of_nat (length (Graph.layer zstate zstate_eq_dec (rb_funs_spec g) [start] i)))
               (seq 0 (length row)).
 Proof. exact check_growth_prefix_sound. Qed.
 Print Assumptions C17_check_prefix_sound.
